@@ -831,7 +831,7 @@ func canStartHTMLBlock(s string, startOfParagraph bool) bool {
 		html4Regexp.MatchString(s) ||
 		html5Regexp.MatchString(s) ||
 		html6Regexp.MatchString(s) ||
-		html7Regexp.MatchString(s) && startOfParagraph)
+		html7Regexp.MatchString(s) && !html7ExcludedRegexp.MatchString(s) && startOfParagraph)
 }
 
 func escapeLeadingSpaceTab(s string) string {
